@@ -160,4 +160,97 @@ def holdsC01 (cfg : MCfg) (calls : List CDecl) (journal : List JReq) (obs : Obs)
   -- at most one copy per applied attempt; more than one only after a lost acknowledgement
   (allMsgs calls).all (fun x => dupsOk journal obs cfg x.2.2)
 
+/-! ## Trace-level monitors
+
+Evaluated on the recorded hook events themselves (tokenised), so that a broken mechanism is a concrete failing
+input whenever the trace shows it, whether or not this particular schedule went on to corrupt the log. -/
+
+abbrev TEv := List String
+
+/-- events emitted inside the ptw.mutex critical sections of partition writer `pw` -/
+def pwSectionEvent (e : TEv) (pw : String) : Bool :=
+  match e with
+  | k :: p :: _ => (k == "PW.NewBatch" || k == "PW.Add" || k == "PW.Detach" || k == "B.TimerFire") && p == pw
+  | _ => false
+
+def isPutOf (e : TEv) (b : String) : Bool :=
+  match e with
+  | ["Q.Put", _, b', _] => b' == b
+  | _ => false
+
+/-- C07 mechanism "batches are queued only while they are the current batch, under the partition mutex": between
+`PW.Detach pw b` and the `Q.Put` of b no other ptw.mutex-section event of the same partition writer is recorded
+(otherwise a later batch can be created — and queued — before b). -/
+def putInsideSection : List TEv → Bool
+  | [] => true
+  | e :: rest =>
+    (match e with
+     | ["PW.Detach", pw, b, _, _] => (rest.takeWhile (fun x => !isPutOf x b)).all (fun x => !pwSectionEvent x pw)
+     | _ => true) && putInsideSection rest
+
+/-- C08 "scheduled for sending": every detached batch is handed to the queue -/
+def detachedGetsPut : List TEv → Bool
+  | [] => true
+  | e :: rest =>
+    (match e with
+     | ["PW.Detach", _, b, _, _] => rest.any (fun x => isPutOf x b)
+     | _ => true) && detachedGetsPut rest
+
+def bump (st : List (String × Nat × Nat)) (b : String) (sz : Nat) : List (String × Nat × Nat) × Nat × Nat :=
+  match st.find? (·.1 == b) with
+  | some (_, n, by_) => ((b, n + 1, by_ + sz) :: st.filter (·.1 != b), n + 1, by_ + sz)
+  | none => ((b, 1, sz) :: st, 1, sz)
+
+/-- C08 "its batch is closed as soon as it is full": after the `PW.Add` that brings a batch to BatchSize messages or
+BatchBytes bytes (sizes as declared by the driver), the next ptw.mutex-section event of that partition writer — and
+in any case the end of the batchMessages section / of the trace — must be `PW.Detach pw b full`. -/
+def closedWhenFullGo (bs bb : Nat) (size : String → Nat → Nat) :
+    List TEv → List (String × Nat × Nat) → Option (String × String) → Bool
+  | [], _, pend => pend.isNone
+  | e :: rest, st, pend =>
+    let isThatDetach : Bool := match pend, e with
+      | some (pw, b), ["PW.Detach", pw', b', "full", _] => pw == pw' && b == b'
+      | _, _ => false
+    let okPend : Bool := match pend with
+      | none => true
+      | some (pw, _) => if pwSectionEvent e pw || e.head? == some "W.Batched" then isThatDetach else true
+    let pend1 := if isThatDetach then none else pend
+    match e with
+    | ["PW.Add", pw, b, ptr, i, _] =>
+      let (st', n, by_) := bump st b (size ptr (i.toNat?.getD 0))
+      okPend && closedWhenFullGo bs bb size rest st' (if decide (bs ≤ n) || decide (bb ≤ by_) then some (pw, b) else pend1)
+    | _ => okPend && closedWhenFullGo bs bb size rest st pend1
+
+def closedWhenFull (bs bb : Nat) (size : String → Nat → Nat) (evs : List TEv) : Bool :=
+  closedWhenFullGo bs bb size evs [] none
+
+def countWhere (evs : List TEv) (p : TEv → Bool) : Nat := (evs.filter p).length
+
+/-- C01: a batch is accepted by the queue at most once, completed at most once, its Completion runs at most once -/
+def batchOnce (evs : List TEv) : Bool :=
+  let batches := (evs.filterMap (fun e => match e with | ["PW.NewBatch", _, b] => some b | _ => none))
+  batches.all (fun b =>
+    countWhere evs (fun e => match e with | ["Q.Put", _, b', "true"] => b' == b | _ => false) ≤ 1 &&
+    countWhere evs (fun e => match e with | ["B.Complete", _, b', _] => b' == b | _ => false) ≤ 1 &&
+    countWhere evs (fun e => match e with | ["B.Completion", _, b', _] => b' == b | _ => false) ≤ 1)
+
+/-- C01/C08: a timer detaches only its own batch and only while that batch is still attached: every
+`PW.Detach pw b timer` directly follows (among pw's section events) `B.TimerFire pw b true` -/
+def timerDetachGo : List TEv → List (String × TEv) → Bool
+  | [], _ => true
+  | e :: rest, last =>
+    match e with
+    | k :: pw :: _ =>
+      if pwSectionEvent e pw then
+        let ok : Bool := match e with
+          | ["PW.Detach", _, b, "timer", _] => (last.find? (·.1 == pw)).map (·.2) == some ["B.TimerFire", pw, b, "true"]
+          | _ => true
+        ok && timerDetachGo rest ((pw, e) :: last.filter (·.1 != pw))
+      else
+        let _ := k
+        timerDetachGo rest last
+    | _ => timerDetachGo rest last
+
+def timerDetachOk (evs : List TEv) : Bool := timerDetachGo evs []
+
 end KV.WriterSpec
